@@ -1,3 +1,29 @@
 import Usual.Common
-/-! Model driver for C01 (stub: not built yet). -/
-def main : IO Unit := IO.println "stub"
+import Usual.C01.Drv
+import Usual.C01.HistGen
+/-! Model driver for C01/C19: talloc ownership + memlimit accounting (line protocol, see
+FRAMEWORK.md).
+  drv_c01 [old]                          line protocol on stdin
+  drv_c01 gen <seed> <count> <c01|c19> [old]   print generated histories
+  drv_c01 exh <depth>                    print the bounded-exhaustive histories
+`old` selects the model of the code as pinned (no repairs); `cfg=1000000` etc. selects single
+repairs (used to validate the model of the pinned code against the pinned code). -/
+open Usual Usual.C01 Usual.C01.Drv
+
+def bit (s : String) (i : Nat) : Bool := s.toList.getD i '1' == '1'
+
+/-- `old`, or `cfg=<7 bits: fixCx fixWalk fixRealloc fixSet fixPromote fixGone fixRollback>` -/
+def cfgOf (args : List String) : Cfg :=
+  match args.find? (·.startsWith "cfg=") with
+  | some a =>
+    let b := (a.drop 4).toString
+    ⟨bit b 0, bit b 1, bit b 2, bit b 3, bit b 4, bit b 5, bit b 6⟩
+  | none => if args.contains "old" then Cfg.old else Cfg.fixed
+
+def main (args : List String) : IO Unit :=
+  let cfg := cfgOf args
+  match args with
+  | "gen" :: seed :: count :: profile :: _ =>
+    genMain seed.toNat! count.toNat! profile cfg
+  | "exh" :: depth :: _ => exhMain depth.toNat! cfg
+  | _ => runDriver ({ cfg := cfg } : DSt) stepLine
